@@ -249,7 +249,56 @@ def writeTableCalls (d : DCfg) (t : Table) : String × Status × Bytes := Id.run
 def parseSubset (s : String) : Option (List Bool) :=
   if s == "-" then none else some (s.toList.map (· == '1'))
 
-def readFileDump (d : DCfg) (data : Bytes) (subset : Option (List Bool)) (probe rewrite : Bool) :
+/-- decode a value array and re-encode it with the default encoding -/
+def reencVA (d : DCfg) (va : VA) : Except Status VA :=
+  match getValues d.cfg va with
+  | .error (.st s) => .error s
+  | .error (.ub _) => .error .unknownError
+  | .ok o => createDflt o
+
+def reencCS (d : DCfg) (cs : CS) : Except Status CS := do
+  let v ← reencVA d cs.values
+  let mut out := csCreate v
+  for p in cs.props do
+    let pv ← reencVA d p.2
+    out ← csAddProperty out p.1 pv
+  pure out
+
+def reencTS (d : DCfg) (ts : TS) : Except Status TS := do
+  let mut cols : Array (Option CS) := #[]
+  for c in ts.cols do
+    match c with
+    | none => throw .argNull
+    | some cs => cols := cols.push (some (← reencCS d cs))
+  pure ⟨cols.toList⟩
+
+/-- ` rd:fh=.. tm=.. ts=.. end=.. bytes=..` -/
+def reencodeDflt (d : DCfg) (tm : TM) (slices : List TS) : String := Id.run do
+  let fh := emitAll fhWrite
+  let mut out := s!" rd:fh={stI fh.1}"
+  let mut bytes := fh.2
+  let mut st := fh.1
+  if st = .ok then
+    let r := emitAll (writeTM d.cfg tm)
+    out := out ++ s!" tm={stI r.1}"
+    bytes := bytes ++ r.2
+    st := r.1
+  for ts in slices do
+    if st = .ok then
+      match reencTS d ts with
+      | .error e => st := e; out := out ++ s!" ts={stI e}"
+      | .ok ts' =>
+        let r := emitAll (writeTS d.cfg ts')
+        out := out ++ s!" ts={stI r.1}"
+        bytes := bytes ++ r.2
+        st := r.1
+  if st = .ok then
+    let e := emitAll writeTSEnd
+    out := out ++ s!" end={stI e.1}"
+    bytes := bytes ++ e.2
+  return out ++ " bytes=" ++ hexq d bytes
+
+def readFileDump (d : DCfg) (data : Bytes) (subset : Option (List Bool)) (probe : Bool) (rewrite : Nat) :
     String :=
   let r := readFile d.cfg subset data.toArray
   match r.fh with
@@ -267,9 +316,11 @@ def readFileDump (d : DCfg) (data : Bytes) (subset : Option (List Bool)) (probe 
         | some (.failed e) => s!" ts={failS e} pos=-"
         | some (.fuel p) => s!" ts=FUEL pos={p}"
         | none => " pos=-")
-      if rewrite then
+      if rewrite > 0 then
         let (txt, _, bytes) := writeTableCalls d ⟨tm, r.slices⟩
-        s3 ++ " rw:" ++ txt ++ " bytes=" ++ hexq d bytes
+        let s4 := s3 ++ " rw:" ++ txt ++ " bytes=" ++ hexq d bytes
+        let ended := match r.last with | some (.tableEnd _) => true | some (.fuel _) => true | _ => false
+        if rewrite = 2 && ended then s4 ++ reencodeDflt d tm r.slices else s4
       else s3
 
 /-! ### scenarios -/
@@ -482,13 +533,49 @@ partial def scMd (d : DCfg) : Tk String := do
       out := out ++ s!"BADOP({op});"
   pure (out ++ "live=0")
 
-def scRt (d : DCfg) (rewrite : Bool) : Tk String := do
+def scRt (d : DCfg) (rewrite : Nat) : Tk String := do
   let (t, st) ← parseTable
   if st ≠ .ok then pure s!"build={stI st} live=0" else
   let (txt, wst, bytes) := writeTableCalls d t
   let s := s!"build=0 {txt} bytes={hexq d bytes}"
   if wst ≠ .ok then pure (s ++ " live=0") else
   pure (s ++ " | " ++ readFileDump d bytes none true rewrite ++ " live=0")
+
+/-- cs VASPEC n (name VASPEC){n} m -/
+def scCs (d : DCfg) : Tk String := do
+  let values ← parseVA
+  let n ← nxN
+  let mut out := s!"values={exS values}"
+  let mut cs : CS := csCreate (.bit 0 0 [])
+  let ok := match values with | .ok _ => true | .error _ => false
+  if let .ok v := values then
+    cs := csCreate v
+    out := out ++ " create=0"
+  -- owner[i] = index of the addition that supplied property i of the slice
+  let mut owner : Array Nat := #[]
+  let mut names : Array Bytes := #[]
+  for i in [0:n] do
+    let name ← nxB
+    let pv ← parseVA
+    names := names.push name
+    if ok then
+      match pv with
+      | .error e => out := out ++ s!" a{i}=va{stI e}"
+      | .ok v =>
+        match csAddProperty cs name v with
+        | .ok cs' => cs := cs'; owner := owner.push i; out := out ++ s!" a{i}=0/{cs.propCnt}"
+        | .error e => out := out ++ s!" a{i}={stI e}/{cs.propCnt}"
+  let m ← nxN
+  if ok then
+    out := out ++ s!" rows={cs.values.rowCnt}"
+    for i in [0:n] do
+      match csGetPropertyIdx cs names[i]! with
+      | some j => out := out ++ s!" g{i}=0@{owner[j]!}"
+      | none => out := out ++ s!" g{i}={stI .propNotFound}"
+    let w := emitAll (writeCS d.cfg cs)
+    out := out ++ s!" w={stI w.1}:{hexq d w.2}"
+    out := out ++ s!" ts=0:{m}:1"
+  pure (out ++ " live=0")
 
 def scFw (d : DCfg) : Tk String := do
   let budget ← nxN
@@ -534,12 +621,15 @@ partial def scenario (d : DCfg) : Tk String := do
   else if kind == "va" then scVa d
   else if kind == "varead" then do let b ← nxB; pure (scVaread d b)
   else if kind == "md" then scMd d
-  else if kind == "rt" then scRt d false
-  else if kind == "rtw" then scRt d true
+  else if kind.startsWith "fa=" then scenario d
+  else if kind == "rt" then scRt d 0
+  else if kind == "rtw" then scRt d 1
+  else if kind == "rtd" then scRt d 2
+  else if kind == "cs" then scCs d
   else if kind == "fr" || kind == "frw" then do
     let b ← nxB
     let sub ← nx
-    pure (readFileDump d b (parseSubset sub) true (kind == "frw") ++ " live=0")
+    pure (readFileDump d b (parseSubset sub) true (if kind == "frw" then 1 else 0) ++ " live=0")
   else if kind == "fw" then scFw d
   else if kind == "" then pure ""
   else pure s!"UNKNOWN({kind})"
